@@ -367,6 +367,23 @@ void thrift_read_map_begin(thrift_decoder_t* dec,
  * ============================================================================
  */
 
+/* Skip one container element. Unlike a boolean field, whose value travels in
+ * the field header, a boolean list/set/map element occupies one byte. */
+static void thrift_skip_element(thrift_decoder_t* dec, thrift_type_t type) {
+    if (type == THRIFT_TYPE_TRUE || type == THRIFT_TYPE_FALSE) {
+        if (dec->status != CARQUET_OK) {
+            return;
+        }
+        if (!has_bytes(dec, 1)) {
+            set_error(dec, CARQUET_ERROR_THRIFT_TRUNCATED, "Truncated bool element");
+            return;
+        }
+        carquet_buffer_reader_skip(&dec->reader, 1);
+        return;
+    }
+    thrift_skip(dec, type);
+}
+
 void thrift_skip(thrift_decoder_t* dec, thrift_type_t type) {
     if (dec->status != CARQUET_OK) {
         return;
@@ -427,7 +444,7 @@ void thrift_skip(thrift_decoder_t* dec, thrift_type_t type) {
             int32_t count;
             thrift_read_list_begin(dec, &elem_type, &count);
             for (int32_t i = 0; i < count && dec->status == CARQUET_OK; i++) {
-                thrift_skip(dec, elem_type);
+                thrift_skip_element(dec, elem_type);
             }
             dec->container_depth--;
             break;
@@ -443,8 +460,8 @@ void thrift_skip(thrift_decoder_t* dec, thrift_type_t type) {
             int32_t count;
             thrift_read_map_begin(dec, &key_type, &value_type, &count);
             for (int32_t i = 0; i < count && dec->status == CARQUET_OK; i++) {
-                thrift_skip(dec, key_type);
-                thrift_skip(dec, value_type);
+                thrift_skip_element(dec, key_type);
+                thrift_skip_element(dec, value_type);
             }
             dec->container_depth--;
             break;
